@@ -226,6 +226,35 @@ def _prep():
         invariants_note="MC config checks the oracle's self-consistency and that zero counts as missing only for electricity")
 
 
+def _metrics():
+    def extra(tier):
+        import random
+        r = common.rng("metrics-long")
+        out = []
+        for k in range(60 if tier == "quick" else 600):
+            n = r.randint(5, 12)
+            cell = lambda: {"f": True, "v": r.randint(-3, 6)} if r.random() > 0.05 else {"f": False, "v": 0}
+            obs = [cell() for _ in range(n)]
+            pred = [cell() for _ in range(n)]
+            if sum(1 for a, b in zip(obs, pred) if a["f"] and b["f"]) >= 3:
+                out.append(({"kind": "stats", "obs": obs, "pred": pred, "p": r.randint(1, 3), "long": True}, "-"))
+        return out
+
+    return runner.PureSpec(
+        prop="C16", module="Metrics", trace_module="MetricsTrace", driver="drivers.metrics",
+        cfg={"quick": "Metrics_quick.cfg", "thorough": "Metrics_thorough.cfg"}, sample={"quick": 5000, "thorough": 80000}, variants=lambda tier, r, cin: ["-"],
+        spec_files=["Metrics.tla", "MetricsDefs.tla", "MetricsTrace.tla", "Rat.tla"], extra_cases=extra,
+        always=lambda b: 'kind |-> "stats"' not in b,
+        rule="TLC enumerates every observed / predicted pair of length 2..3 over small integers with a non-finite marker, parameter counts 1..3, the "
+             "4 x 4 hourly gate table and 9 stored-metrics cases (real fits of 3 families x 3 baselines); seeded longer integer series (5..12) are added; "
+             "every statistic of the real BaselineMetrics / ReportingMetrics is snapped to a rational and compared with Rat.tla arithmetic by TLC",
+        assumptions=["square-rooted quantities are compared squared; values are snapped with Fraction.limit_denominator and must be exact to 1e-9",
+                     "lag-1 autocorrelation: rho^2 and the sign of rho are decided; n' through ((n-n')/(n+n'))^2 = rho^2",
+                     "'undefined' means None or NaN; an infinity is a reported number",
+                     "skewness, kurtosis, the t-quantile and the uncertainty polynomial are not in the statement and not checked"],
+        invariants_note="MC config checks the identities rmse^2*n = sse, cvrmse^2*mean^2 = rmse^2, adjusted >= plain, 0 <= r^2 <= 1, bias^2 <= mse, mae <= rmse and the gate table")
+
+
 class C07Entry:
     """C07 = RowFrame (row-level masking, daily and billing) + the aggregated-column clauses of Agg (billing aggregations)."""
     OWN_AGG = {"ObservedIsSumOfDailyRows", "PredictedIsSumOfDailyRows", "SavingsFromAggregatedColumnsEqualRowwiseSavings", "ObservedColumnKept"}
@@ -283,7 +312,7 @@ class LifeEntry:
         return lifeprops.selftest(self.prop)
 
 
-_REG = {"C20": lambda: PureEntry(_window()), "C07": lambda: C07Entry(), "C19": lambda: PureEntry(_agg()), "C06": lambda: C06Entry(), "C18": lambda: PureEntry(_seg()), "C14": lambda: PureEntry(_settings()), "C10": lambda: PureEntry(_suff()), "C13": lambda: PureEntry(_split()), "C17": lambda: PureEntry(_prep())}
+_REG = {"C20": lambda: PureEntry(_window()), "C07": lambda: C07Entry(), "C19": lambda: PureEntry(_agg()), "C06": lambda: C06Entry(), "C18": lambda: PureEntry(_seg()), "C14": lambda: PureEntry(_settings()), "C10": lambda: PureEntry(_suff()), "C13": lambda: PureEntry(_split()), "C17": lambda: PureEntry(_prep()), "C16": lambda: PureEntry(_metrics())}
 for _p in ("C01", "C02", "C03", "C04", "C05"):
     _REG[_p] = (lambda p: (lambda: LifeEntry(p)))(_p)
 
